@@ -432,7 +432,7 @@ def execute(plan, tape):
             _run_group(plan, tape, res, hist, ctl, sim)
     sim.finish_run()
     res.stats['fault.interrupt'] += ctl.fired
-    res.stats['fault.natural_failure'] += sum(1 for h in hist if h[1] == 'raise')
+    res.stats['fault.natural_failure'] += sum(1 for h in hist if h[1] == 'raise' and h[0] in ('fit', 'recompute', 'gfit', 'grecompute'))
     res.stats['fault.invalid_setting_edit'] += sum(1 for h in hist if h[0] == 'edit' and h[1].endswith('!'))
     res.stats['seam_hits'] += ctl.hits
     res.stats['pool_seam_hits'] += sim.seam_hits
